@@ -354,7 +354,7 @@ class C18(CheckBase):
             if fs.abspath(st['cur']) not in opened:
                 raise kernel.HarnessError('storage seam bypassed: %s did not open its input through geodepy.gnss.open (%s: %s)'
                                           % (kind, type(exc).__name__ if exc else 'returned', str(exc)[:200] if exc else ''))
-            if status == 'ok' and not reads:
+            if status == 'ok' and not reads and not fault_fired:
                 raise kernel.HarnessError('clock seam bypassed: %s returned without reading the simulated clock' % kind)
             tcls = clock_class(reads[0]) if reads else 'no-clock-read'
             log.add('edit', kind, which, status, type(exc).__name__ if exc else '-', [t.isoformat() for t in reads])
